@@ -61,6 +61,19 @@ def container_error_paths(rec, r, rec_wrap, rec_unwrap, B2):
             enc, spec = B2.dec_code(rand(8))
         good = rec_wrap(rec, enc, spec, rand(26))
         rec_unwrap(rec, enc, spec, good)
+        # the SAME key used elsewhere in the library with another IV while this encryptor object is alive (the directory MACs of
+        # a file whose session key equals the wrapping key do exactly that): the container stays a zero-IV CBC
+        from bec2format.bf3file import cmac as _cmac
+        from bec2format.crypto import create_AES128 as _mk
+        wk = bytes(spec["key"])
+        for iv in (rand(16), (1).to_bytes(16, "big"), bytes([255] * 16)):
+            try:
+                _cmac(rand(40), wk, iv)
+                _mk(wk, iv).encrypt(rand(16))
+            except Exception:                                   # noqa: BLE001 -- only the later container events are judged
+                pass
+            rec_unwrap(rec, enc, spec, good)
+            rec_unwrap(rec, enc, spec, rec_wrap(rec, enc, spec, rand(26)))
         big = rec_wrap(rec, enc, spec, rand(60))
         failing = [big[:40], big[:33], big + b"\x00", good[:-1], bytes(16), bytes(48),
                    bytes([good[0] ^ 1]) + good[1:], good[:-1] + bytes([good[-1] ^ 1])]
